@@ -131,6 +131,7 @@ fn run_check(prop: &str, tier: Tier) -> i32 {
         }
         "C17" => {
             check.parts.extend(engines::select::run(tier));
+            check.parts.extend(engines::server::run_c17(tier, started));
         }
         "C10" | "C11" => {
             let p: &'static str = if prop == "C10" { "C10" } else { "C11" };
